@@ -377,6 +377,59 @@ def dqmSlack (label method : String) (ubc lbc : Int) (S : Nat) (crossZero : Bool
     if zero then [{ label := s!"slack_{label}", ncases := d.length + 2, cases := enum1 d ++ [(d.length + 1, ubc)] }]
     else [{ label := s!"slack_{label}", ncases := d.length + 1, cases := enum1 d }]
 
+/-! ## the two `add_linear_inequality_constraint`s as coded, end to end -/
+
+/-- outcome of `add_linear_inequality_constraint`: the warning branch (nothing added, `[]` returned),
+    `ValueError` (infeasible for every value), an error raised by the inner equality constraint, or the
+    updated model together with the returned slack terms -/
+inductive IneqRes (M S : Type) where
+  | skipped
+  | raises
+  | err
+  | ok (m : M) (slack : S)
+
+def ratTerms {α : Type} (terms : List (α × Int)) : List (α × Rat) := terms.map (fun t => (t.1, ((t.2 : Int) : Rat)))
+
+/-- `BinaryQuadraticModel.add_linear_inequality_constraint(terms, λ, label, constant, lb, ub, cross_zero)`
+    on a BINARY model: the mutator calls it makes and the slack terms it returns.  The bounds are
+    tightened with the *sums* of the positive / negative coefficients (`ineqPlan`); the equality short-cut
+    is taken when the *tightened* range `ub_c − lb_c` is 0. -/
+def bqmIneq (label : String) (terms : List (Label × Int)) (lam : Rat) (c lb ub : Int) (cross : Bool) :
+    IneqRes (List (PTerm Label)) (List (Label × Int)) :=
+  match ineqPlan (terms.map (·.2)) c lb ub with
+  | .skip => .skipped
+  | .infeasible => .raises
+  | .equality ubc => .ok (eqTermsCy .binary (ratTerms terms) lam (((-ubc : Int)) : Rat)) []
+  | .slack ubc lbc S =>
+    let sl := bqmSlack label ubc lbc S cross
+    .ok (sl.map (fun p => PTerm.lin p.1 0) ++ eqTermsCy .binary (ratTerms (terms ++ sl)) lam (((-ubc : Int)) : Rat)) sl
+
+/-- the slack terms `(variable, case, value)` of the new variables `base, base+1, …` -/
+def slackExtra (base : Nat) : List SlackVar → List (Nat × Nat × Int)
+  | [] => []
+  | v :: r => v.cases.map (fun cv => (base, cv.1, cv.2)) ++ slackExtra (base + 1) r
+
+def ratTerms3 (terms : List (Nat × Nat × Int)) : List (Nat × Nat × Rat) := terms.map (fun t => (t.1, t.2.1, ((t.2.2 : Int) : Rat)))
+
+/-- `DiscreteQuadraticModel.add_linear_inequality_constraint(terms, λ, label, constant, lb, ub, slack_method,
+    cross_zero)`: `terms` are `(variable, case, bias)` triples, possibly with repeated `(variable, case)`
+    pairs; the bounds are tightened with the sums of the positive / negative biases over *all* triples -/
+def dqmIneq (d : Dqm) (method label : String) (terms : List (Nat × Nat × Int)) (lam : Rat) (c lb ub : Int) (cross : Bool) :
+    IneqRes Dqm (List SlackVar) :=
+  match ineqPlan (terms.map (·.2.2)) c lb ub with
+  | .skip => .skipped
+  | .infeasible => .raises
+  | .equality ubc =>
+    match dqmAddEq d (ratTerms3 terms) lam (((-ubc : Int)) : Rat) with
+    | some d' => .ok d' []
+    | none => .err
+  | .slack ubc lbc S =>
+    let sv := dqmSlack label method ubc lbc S cross
+    let d1 : Dqm := { d with ncases := d.ncases ++ sv.map (·.ncases), adj := d.adj ++ sv.map (fun _ => []) }
+    match dqmAddEq d1 (ratTerms3 (terms ++ slackExtra d.ncases.length sv)) lam (((-ubc : Int)) : Rat) with
+    | some d' => .ok d' sv
+    | none => .err
+
 /-! ## `binary_encoding` -/
 
 /-- `(label, coefficient)` of `binary_encoding(v, ub)`; `none` = `ValueError` (ub < 2) -/
